@@ -17,7 +17,7 @@ from pyvc.calls import Role
 REPO_ROOT = '/repo'
 EQ = 'playback.studio.equalizer:Equalizer.'
 E = z3.Empty(SeqV)
-_eng.OBJMETHODS |= {('Queue', 'put'), ('Queue', 'get'), ('Queue', 'close'), ('Event', 'clear'), ('Event', 'set'), ('Event', 'is_set'), ('Event', 'wait'), ('Process', 'is_alive'), ('Process', 'join'), ('Process', 'start')}
+_eng.OBJMETHODS |= {('Queue', 'put'), ('Queue', 'get'), ('Queue', 'close'), ('Event', 'clear'), ('Event', 'set'), ('Event', 'is_set'), ('Event', 'wait'), ('Process', 'is_alive'), ('Process', 'join'), ('Process', 'start'), ('Process', 'terminate'), ('Process', 'kill')}
 MEMBERS = ['Equal', 'Fixed', 'Different', 'Failed', 'EqualizerFailure']
 NONE_W, IDLE, WORKING, DEAD = 0, 1, 2, 3
 
@@ -114,6 +114,10 @@ class EqSpec(object):
                 st.events.append(('join', tuple(e_[0] for e_ in st.events))); st.g['w'] = z3.IntVal(NONE_W); return [(st, ('val', NONE))]
             if name == 'start':
                 st.events.append(('start',)); st.g['w'] = z3.IntVal(IDLE); return [(st, ('val', NONE))]
+            if name == 'terminate':
+                env(st); st.events.append(('sigterm',)); return [(st, ('val', NONE))]      # SIGTERM can be handled or ignored by the replayed code: no state change guaranteed
+            if name == 'kill':
+                env(st); st.g['w'] = z3.IntVal(DEAD); st.events.append(('kill', NONE, NONE)); return [(st, ('val', NONE))]
         return None
 
     def role_call(self, ex, st, role, f, pos, kw, node, star, dstar):
